@@ -165,13 +165,17 @@ def run_case(ctx, name, params):
                 pt.wrap_attr(SqliteDataStore, "sync_individual", mk_sync)
             a1 = DummyAlgorithm(p1)
             a1.options["max_processes"] = workers
+            stale_address = None
             if r.random() < 0.35:
                 # an earlier parallel batch on the same algorithm object was aborted by an exception in a worker; its designs
                 # are gone (freed) when the judged batch is built, so nothing of it may influence the judged batch
                 import gc
                 import time as _t
                 warm = [Individual([r.uniform(-1, 1) for _ in range(n)]) for _ in range(r.randint(2, 6))]
-                poison.add(r.choice(warm).id)
+                pz_ = r.choice(warm)
+                poison.add(pz_.id)
+                stale_address = id(pz_)
+                del pz_
                 try:
                     a1.evaluate(warm)
                 except BaseException:
@@ -193,6 +197,18 @@ def run_case(ctx, name, params):
                     except Exception:
                         pass
             batch = [Individual(list(v)) for v in vecs]
+            if stale_address is not None:
+                # CPython hands the memory of a freed design to a later one all the time; make sure it happens here: allocate
+                # designs until one sits at the address of the design whose evaluation aborted the warm-up batch
+                hold = []
+                for _k in range(30000):
+                    x_ = Individual(list(vecs[0]))
+                    if id(x_) == stale_address:
+                        batch[0] = x_
+                        ctx.count("judged_designs_at_the_address_of_an_aborted_one")
+                        break
+                    hold.append(x_)
+                del hold
             if name == "lines":
                 inj = sched.YieldInjector(params["seed"], prob=r.choice([0.1, 0.3, 0.6]))
                 inj.start()
